@@ -926,6 +926,18 @@ def run_e2e_script(ctx, mon, rng, idx, text_lines=None, atoms=None):
                                       'by the clause nor kept as a hypothesis' % (sid, txt, x[0], S.tm_str(A)),
                                       {'e2e_text': [list(y[:3]) for y in kept], 'atoms': atoms, 'step': sid})
                         break
+        if isinstance(st, command.Step) and hy:
+            # every hypothesis of an accepted step is an assumption made in THIS proof (a result handed over from
+            # another proof of the same process would bring that proof's hypotheses along)
+            own = set(S.alpha(S.tm_shadow(x[3].assm)) for x in kept if isinstance(x[3], command.Assume))
+            foreign = [h for h in hy if S.alpha(h) not in own]
+            ctx.count('e2e_hypotheses_checked', len(hy))
+            if foreign:
+                ctx.violation('e2e:%s:hypothesis-that-is-not-an-assumption-of-this-proof' % rule,
+                              'step %s (%s) carries the hypothesis %s, which no assume line of this proof states' % (
+                                  sid, rule, S.tm_str(foreign[0])[:200]),
+                              {'e2e_text': [list(x[:3]) for x in kept], 'atoms': atoms, 'step': sid})
+                break
         ok, w = O.tt_sequent_valid(hy, pr)
         ctx.count('e2e_tt:' + str(ok))
         if ok is False:
